@@ -349,4 +349,176 @@ theorem implicit_ignored_colon (be : Backend) (s : List Char) (hs : ':' ∈ s) (
     · rw [bad_version_value be _ true ver fl (by omega) (Or.inl ⟨s, rfl⟩),
         bad_version_value be _ false ver fl (by omega) (Or.inl ⟨s, rfl⟩)]
 
+
+/-! ### all spellings, both flag values, both implicit_prefix values -/
+
+/-- address text + '/' + a prefix text resolving to `q`: any flags, implicit_prefix or not -/
+theorem net_with_prefix_all (be : Backend) (ver : Nat) (hver : VerOK ver) (v : Nat) (hv : v < 2 ^ width ver)
+    (T : List Char) (q : Nat) (hT : T.contains '/' = false)
+    (hres : resolvePrefix be ver (some T) = .ok (q : Int)) (hq : q ≤ width ver) (fl : Nat)
+    (pver : Option Nat) (hpver : pver = none ∨ pver = some ver) (i : Bool) :
+    ipNetwork be (.str (intToStr be ver v ++ '/' :: T)) i pver fl = .ok ⟨ver, stored ver fl v q, q⟩ := by
+  cases i with
+  | false => exact net_with_prefix be ver hver v hv T q hT hres hq fl pver hpver
+  | true =>
+    rw [explicit_prefix_wins be _ (by simp) pver fl]
+    exact net_with_prefix be ver hver v hv T q hT hres hq fl pver hpver
+
+theorem resolve_netmask_text (be : Backend) (ver : Nat) (hver : VerOK ver) (p : Nat) (hp : p ≤ width ver) :
+    resolvePrefix be ver (some (intToStr be ver (netNetmask (width ver) p))) = .ok (p : Int) := by
+  obtain ⟨hnm, _, _, _, _, _, _, _, _⟩ := mask_facts ver hver p hp
+  exact (resolvePrefix_iff be ver hver _ _).mpr
+    (Or.inr ⟨_, p, addr_rt be ver hver _ hnm, hp, rfl, Or.inl rfl⟩)
+
+theorem hostmask_zero (w : Nat) : netHostmask w 0 = netNetmask w w := by
+  unfold netHostmask netNetmask hostmaskInt
+  simp [Nat.one_shiftLeft]
+
+theorem hostmask_full (w : Nat) : netHostmask w w = netNetmask w 0 := by
+  unfold netHostmask netNetmask hostmaskInt
+  simp [Nat.one_shiftLeft]
+
+/-- the hostmask text of `p` resolves to `p`, except that the all-ones / all-zeros texts are
+    netmasks first -/
+theorem resolve_hostmask_text (be : Backend) (ver : Nat) (hver : VerOK ver) (p : Nat) (hp : p ≤ width ver) :
+    resolvePrefix be ver (some (intToStr be ver (netHostmask (width ver) p))) =
+      .ok (((if p = 0 ∨ p = width ver then width ver - p else p : Nat)) : Int) := by
+  obtain ⟨_, hhm, _, _, _, _, _, _, _⟩ := mask_facts ver hver p hp
+  by_cases hpe : p = 0 ∨ p = width ver
+  · rw [if_pos hpe]
+    rcases hpe with e | e
+    · subst e
+      rw [hostmask_zero]
+      simpa using resolve_netmask_text be ver hver (width ver) (Nat.le_refl _)
+    · have : netHostmask (width ver) p = netNetmask (width ver) 0 := by rw [e]; exact hostmask_full _
+      rw [this, e]
+      simpa using resolve_netmask_text be ver hver 0 (Nat.zero_le _)
+  · rw [if_neg hpe]
+    exact (resolvePrefix_iff be ver hver _ _).mpr
+      (Or.inr ⟨_, p, addr_rt be ver hver _ hhm, hp, rfl, Or.inr ⟨rfl, by omega, by omega⟩⟩)
+
+/-- `(value, prefixlen)` fits the family -/
+def Fits (ver : Nat) (x y : Int) : Prop := (0 ≤ x ∧ x ≤ (maxInt ver : Int)) ∧ (0 ≤ y ∧ y ≤ (width ver : Int))
+
+instance (ver : Nat) (x y : Int) : Decidable (Fits ver x y) := by unfold Fits; infer_instance
+
+/-- the tuple form of `parse_ip_network`, completely -/
+theorem parse_tuple (be : Backend) (ver : Nat) (hver : VerOK ver) (x y : Int) (i : Bool) (fl : Nat) :
+    parseIpNetwork be ver (.tuple x y) i fl =
+      if Fits ver x y then .ok (stored ver fl x.toNat y.toNat, y.toNat) else .error .addrFormat := by
+  unfold parseIpNetwork
+  simp only
+  by_cases h1 : 0 ≤ x ∧ x ≤ (maxInt ver : Int)
+  · by_cases h2 : 0 ≤ y ∧ y ≤ (width ver : Int)
+    · have hy : y.toNat ≤ width ver := by omega
+      have hf : Fits ver x y := ⟨h1, h2⟩
+      rw [if_neg (fun hn => hn h1), if_neg (fun hn => hn h2), if_pos hf, applyNohost_ok ver hver fl _ _ hy]
+      rfl
+    · have hf : ¬ Fits ver x y := fun h => h2 h.2
+      rw [if_neg (fun hn => hn h1), if_pos h2, if_neg hf]
+  · have hf : ¬ Fits ver x y := fun h => h1 h.1
+    rw [if_pos h1, if_neg hf]
+
+/-- **Tuples, completely** (any integers, any flags, implicit_prefix ignored): with an explicit
+    version the tuple must fit that family; without one it is IPv4 when value and prefix fit
+    IPv4, else IPv6 when they fit IPv6; the stored value has its host bits cleared under NOHOST;
+    everything else - negative or too large value or prefix - is AddrFormatError. -/
+theorem tuple_all (be : Backend) (x y : Int) (i : Bool) (fl : Nat) :
+    (∀ ver, VerOK ver → ipNetwork be (.tuple x y) i (some ver) fl =
+      if Fits ver x y then .ok ⟨ver, stored ver fl x.toNat y.toNat, y.toNat⟩ else .error .addrFormat) ∧
+    ipNetwork be (.tuple x y) i none fl =
+      (if Fits 4 x y then .ok ⟨4, stored 4 fl x.toNat y.toNat, y.toNat⟩
+       else if Fits 6 x y then .ok ⟨6, stored 6 fl x.toNat y.toNat, y.toNat⟩
+       else .error .addrFormat) := by
+  constructor
+  · intro ver hver
+    rw [ipNetwork_tuple_some be x y i ver hver fl, parse_tuple be ver hver]
+    unfold liftNet
+    by_cases hf : Fits ver x y
+    · rw [if_pos hf, if_pos hf]
+    · rw [if_neg hf, if_neg hf]
+  · rw [ipNetwork_tuple_none, parse_tuple be 4 (Or.inl rfl), parse_tuple be 6 (Or.inr rfl)]
+    unfold liftNet
+    by_cases h4 : Fits 4 x y
+    · rw [if_pos h4, if_pos h4]
+    · rw [if_neg h4, if_neg h4]
+      by_cases h6 : Fits 6 x y
+      · rw [if_pos h6, if_pos h6]
+      · rw [if_neg h6, if_neg h6]
+
+example : Fits 6 (2 ^ 32) 3 ∧ ¬ Fits 4 (2 ^ 32) 3 ∧ ¬ Fits 6 (-1) 3 ∧ ¬ Fits 6 5 129 := by decide
+
+/-- a tuple that fits no family (negative or oversized value or prefix) is AddrFormatError
+    also without a version argument -/
+theorem tuple_rejects_implicit (be : Backend) (x y : Int) (i : Bool) (fl : Nat)
+    (h : ¬ ((0 ≤ x ∧ x < 2 ^ 128) ∧ (0 ≤ y ∧ y ≤ 128))) :
+    ipNetwork be (.tuple x y) i none fl = .error .addrFormat := by
+  have m4 : (maxInt 4 : Int) = 4294967295 := by decide
+  have m6 : (maxInt 6 : Int) = 340282366920938463463374607431768211455 := by decide
+  have w4 : (width 4 : Int) = 32 := rfl
+  have w6 : (width 6 : Int) = 128 := rfl
+  rw [(tuple_all be x y i fl).2]
+  have h4 : ¬ Fits 4 x y := by unfold Fits; rw [m4, w4]; omega
+  have h6 : ¬ Fits 6 x y := by unfold Fits; rw [m6, w6]; omega
+  rw [if_neg h4, if_neg h6]
+
+/-- **All spellings agree, at the full quantifier.**  Every family, value, prefix; flags 0 or
+    NOHOST (any flags word); implicit_prefix False or True; explicit or detected version:
+    'a/p', 'a/<netmask of p>', 'a/<hostmask of p>' and the tuple build `⟨ver, stored v, p⟩`
+    where `stored` is `v` itself, or `v` with exactly the host bits cleared under NOHOST - the
+    same in every spelling (hostmask spelling at p ∈ {0, width}: netmask precedence).  Copy
+    construction returns the source unchanged: the code does not look at `flags` there. -/
+theorem spellings_agree_all (be : Backend) (ver : Nat) (hver : VerOK ver) (v : Nat) (hv : v < 2 ^ width ver)
+    (p : Nat) (hp : p ≤ width ver) (pver : Option Nat) (hpver : pver = none ∨ pver = some ver) (fl : Nat) (i : Bool) :
+    let a := intToStr be ver v
+    let w := width ver
+    let p' := if p = 0 ∨ p = w then w - p else p
+    ipNetwork be (.str (a ++ '/' :: dec p)) i pver fl = .ok ⟨ver, stored ver fl v p, p⟩ ∧
+    ipNetwork be (.str (a ++ '/' :: intToStr be ver (netNetmask w p))) i pver fl = .ok ⟨ver, stored ver fl v p, p⟩ ∧
+    ipNetwork be (.str (a ++ '/' :: intToStr be ver (netHostmask w p))) i pver fl = .ok ⟨ver, stored ver fl v p', p'⟩ ∧
+    ipNetwork be (.tuple v p) i (some ver) fl = .ok ⟨ver, stored ver fl v p, p⟩ ∧
+    ipNetwork be (.copyNet ⟨ver, v, p⟩) i pver fl = .ok ⟨ver, v, p⟩ := by
+  intro a w p'
+  obtain ⟨hnm, hhm, _, _, _, _, _, _, _⟩ := mask_facts ver hver p hp
+  refine ⟨?_, ?_, ?_, ?_, rfl⟩
+  · exact net_with_prefix_all be ver hver v hv (dec p) p (slash_not_in_dec p) (resolve_dec be ver p) hp fl pver hpver i
+  · exact net_with_prefix_all be ver hver v hv _ p (addr_noslash be ver hver _ hnm) (resolve_netmask_text be ver hver p hp)
+      hp fl pver hpver i
+  · have hp' : p' ≤ width ver := by
+      show (if p = 0 ∨ p = width ver then width ver - p else p) ≤ width ver
+      split <;> omega
+    exact net_with_prefix_all be ver hver v hv _ p' (addr_noslash be ver hver _ hhm) (resolve_hostmask_text be ver hver p hp)
+      hp' fl pver hpver i
+  · have hfit : Fits ver (v : Int) (p : Int) := by
+      have : v ≤ maxInt ver := by unfold maxInt; omega
+      unfold Fits; omega
+    rw [(tuple_all be v p i fl).1 ver hver, if_pos hfit]
+    simp
+
+example : stored 4 NOHOST 0xC0A80105 24 = 0xC0A80100 ∧ stored 4 0 0xC0A80105 24 = 0xC0A80105 := by decide
+
+/-- **NOHOST clears exactly the host bits, in every spelling**: the stored value of each string /
+    tuple spelling under NOHOST is `v / 2^(w-p) * 2^(w-p)` -/
+theorem nohost_every_spelling (ver : Nat) (v : Nat) (hv : v < 2 ^ width ver)
+    (p : Nat) (hp : p ≤ width ver) : stored ver NOHOST v p = v / 2 ^ (width ver - p) * 2 ^ (width ver - p) ∧
+      stored ver 0 v p = v := by
+  rw [stored_eq ver NOHOST v p hv hp, stored_eq ver 0 v p hv hp]
+  exact ⟨by rw [if_pos (by decide)], by rw [if_neg (by decide)]⟩
+
+/-- **str() round trip, every flags / implicit_prefix**: `IPNetwork(str(n), …)` is `n` again -
+    with `n`'s host bits cleared exactly when NOHOST is given -/
+theorem str_roundtrip_all (be : Backend) (n : Net) (hn : n.WF) (pver : Option Nat) (hpver : pver = none ∨ pver = some n.ver)
+    (fl : Nat) (i : Bool) :
+    ipNetwork be (.str (netStr be n)) i pver fl = .ok ⟨n.ver, stored n.ver fl n.val n.plen, n.plen⟩ := by
+  obtain ⟨hver, hv, hp⟩ := hn
+  have := (spellings_agree_all be n.ver hver n.val hv n.plen hp pver hpver fl i).1
+  unfold netStr
+  rw [List.append_assoc]
+  exact this
+
+/-- copy construction ignores flags and implicit_prefix -/
+theorem copies_ignore_flags (be : Backend) (n : Net) (a : Addr) (i : Bool) (pver : Option Nat) (fl : Nat) :
+    ipNetwork be (.copyNet n) i pver fl = .ok n ∧
+    ipNetwork be (.copyAddr a) i pver fl = .ok ⟨a.ver, a.val, width a.ver⟩ := ⟨rfl, rfl⟩
+
 end NV.C03
